@@ -48,3 +48,14 @@ package client
 //@   prop C15
 //@ func (*CqlClientConnection).readFrame
 //@   prop C15
+
+// A self-contained segment may carry several envelopes: unless the connection is aborted, every byte of the payload is
+// handed to the frame reader (no trailing envelope, however short, is left behind).
+//@ func (*CqlClientConnection).readSelfContainedSegment
+//@   prop C15
+//@   requires parts: incoming.Payload != nil
+//@   ensures drained: !result ==> pos(payloadReader) == avail(payloadReader)
+//@ func (*CqlServerConnection).readSelfContainedSegment
+//@   prop C15
+//@   requires parts: incoming.Payload != nil
+//@   ensures drained: !result ==> pos(payloadReader) == avail(payloadReader)
